@@ -29,6 +29,7 @@ package jsonpatch
 //@   ensures[C04] child: childOK(result.0)
 //@   ensures[C08] attrs: !isTestFailed(err) && !isMissing(err) && !isCopyLimit(err)
 //@   ensures[C08] invalid-index: d != nil && err != nil && atoiOK(key) ==> isInvalidIndex(err)
+//@   ensures[C01,C08] never-unwraps-to-missing: err != nil ==> unwrap(err) != ErrMissing
 
 //@ func (*partialArray).set
 //@   requires recv: options != nil
@@ -93,6 +94,8 @@ package jsonpatch
 //@   ensures[C08] attrs: !isTestFailed(err) && !isCopyLimit(err) && !isInvalidIndex(err)
 //@   ensures[C08] missing: d.obj != nil && err != nil ==> isMissing(err)
 //@   ensures[C08] no-missing-otherwise: d.obj == nil ==> !isMissing(err)
+//@   ensures[C01,C08] missing-unwraps: d.obj != nil && key != "" && err != nil ==> unwrap(err) == ErrMissing
+//@   ensures[C08] nil-map-unwraps: d.obj == nil && key != "" ==> unwrap(err) != ErrMissing
 
 //@ func (*partialDoc).set
 //@   requires recv: d != nil
@@ -188,6 +191,7 @@ package jsonpatch
 //@   ensures[C02] keeps-no-null-kids: old(noNullKids()) ==> noNullKids()
 //@   ensures[C01,C06] bytes-kept: n.raw != nil ==> bytes(*n.raw) == old(bytes(*n.raw))
 
+//@ ginv sentinel-unwrap: unwrap(ErrMissing) == nil && unwrap(ErrTestFailed) == nil && unwrap(ErrInvalid) == nil && unwrap(ErrInvalidIndex) == nil && unwrap(ErrUnknownType) == nil && unwrap(ErrExpectedObject) == nil
 //@ ginv merge-errors: ErrBadJSONDoc != nil && ErrBadJSONPatch != nil && errBadMergeTypes != nil
 //@ ginv raw-consts: bytes(rawJSONNull) == nullText && rawJSONNull != nil && allocated(rawJSONNull) && allocated(rawJSONArray) && allocated(rawJSONObject) && wf(bytes(rawJSONArray)) && kind(val(bytes(rawJSONArray))) == KArr && jlen(val(bytes(rawJSONArray))) == 0 && nows(bytes(rawJSONArray)) && wf(bytes(rawJSONObject)) && kind(val(bytes(rawJSONObject))) == KObj && jlen(val(bytes(rawJSONObject))) == 0 && nows(bytes(rawJSONObject))
 
@@ -394,7 +398,14 @@ package jsonpatch
 //@   ensures[C04] container: err == nil ==> conOK(*doc)
 //@   ensures[C08] attrs: !isTestFailed(err) && !isCopyLimit(err)
 //@   bind con = findObject#1.0
+//@   bind key = findObject#1.1
+//@   bind v = value#2.0
+//@   let neg = options.SupportNegativeIndices
 //@   ensures[C08] missing-parent: reached(findObject#1) && con == nil ==> isMissing(err)
+//@   ensures[C01] object-member-set: reached(findObject#1) && con != nil && isDoc(con) && docOf(con).obj != nil ==> err == nil && key in docOf(con).obj && docOf(con).obj[key] == v
+//@   ensures[C01] array-ok-iff: reached(findObject#1) && con != nil && isAry(con) ==> ((err == nil) <==> idxAddOK(key, at(findObject#1, len(aryOf(con).nodes)), neg))
+//@   ensures[C01] array-inserted: reached(findObject#1) && con != nil && isAry(con) && err == nil ==> len(aryOf(con).nodes) == at(findObject#1, len(aryOf(con).nodes)) + 1 && aryOf(con).nodes[idxAddVal(key, at(findObject#1, len(aryOf(con).nodes)))] == v
+//@   ensures[C01] value-is-patch-value: reached(findObject#1) && con != nil ==> v != nil && v.raw != nil && (op["value"] != nil ==> v.raw == op["value"]) && (op["value"] == nil ==> kind(val(*v.raw)) == KNull)
 
 //@ func (Patch).remove
 //@   requires args: doc != nil && options != nil && conOK(*doc)
@@ -402,8 +413,15 @@ package jsonpatch
 //@   ensures[C04] container: conOK(*doc) && *doc == old(*doc)
 //@   ensures[C08] attrs: !isTestFailed(err) && !isCopyLimit(err)
 //@   bind con = findObject#1.0
-//@   ensures[C08,C13] missing-parent: reached(findObject#1) && con == nil && !options.AllowMissingPathOnRemove ==> isMissing(err)
-//@   ensures[C13] missing-parent-skipped: reached(findObject#1) && con == nil && options.AllowMissingPathOnRemove ==> err == nil
+//@   bind key = findObject#1.1
+//@   let neg = options.SupportNegativeIndices
+//@   let allow = options.AllowMissingPathOnRemove
+//@   ensures[C08,C13] missing-parent: reached(findObject#1) && con == nil && !allow ==> isMissing(err)
+//@   ensures[C13] missing-parent-skipped: reached(findObject#1) && con == nil && allow ==> err == nil
+//@   ensures[C01,C13] object-member-removed: reached(findObject#1) && con != nil && isDoc(con) && at(findObject#1, key in docOf(con).obj) ==> err == nil && !(key in docOf(con).obj)
+//@   ensures[C08,C13] object-member-absent: reached(findObject#1) && con != nil && isDoc(con) && docOf(con).obj != nil && !at(findObject#1, key in docOf(con).obj) ==> (allow ==> err == nil) && (!allow ==> err != nil && isMissing(err)) && docOf(con).keys == at(findObject#1, docOf(con).keys)
+//@   ensures[C01,C13] array-element-removed: reached(findObject#1) && con != nil && isAry(con) && idxRefOK(key, at(findObject#1, len(aryOf(con).nodes)), neg) ==> err == nil && len(aryOf(con).nodes) == at(findObject#1, len(aryOf(con).nodes)) - 1
+//@   ensures[C13] array-element-absent: reached(findObject#1) && con != nil && isAry(con) && !idxRefOK(key, at(findObject#1, len(aryOf(con).nodes)), neg) ==> aryOf(con).nodes == at(findObject#1, aryOf(con).nodes) && (err == nil ==> allow && atoiOK(key))
 
 //@ func (Patch).replace
 //@   requires args: doc != nil && options != nil && conOK(*doc)
@@ -411,7 +429,14 @@ package jsonpatch
 //@   ensures[C04] container: err == nil ==> conOK(*doc)
 //@   ensures[C08] attrs: !isTestFailed(err) && !isCopyLimit(err)
 //@   bind con = findObject#1.0
+//@   bind key = findObject#1.1
+//@   bind v = value#2.0
+//@   let neg = options.SupportNegativeIndices
 //@   ensures[C08] missing-parent: reached(findObject#1) && con == nil ==> isMissing(err)
+//@   ensures[C01,C08] missing-member: reached(findObject#1) && con != nil && key != "" && (isDoc(con) || isAry(con)) && (isDoc(con) ==> docOf(con).obj != nil) && !at(findObject#1, conHas(con, key, neg)) ==> err != nil && isMissing(err)
+//@   ensures[C01,C05] object-member-replaced: reached(findObject#1) && con != nil && isDoc(con) && at(findObject#1, key in docOf(con).obj) && key != "" ==> err == nil && docOf(con).obj[key] == v && docOf(con).keys == at(findObject#1, docOf(con).keys)
+//@   ensures[C01] array-element-replaced: reached(findObject#1) && con != nil && isAry(con) && key != "" && idxRefOK(key, at(findObject#1, len(aryOf(con).nodes)), neg) ==> err == nil && len(aryOf(con).nodes) == at(findObject#1, len(aryOf(con).nodes)) && aryOf(con).nodes[idxRefVal(key, len(aryOf(con).nodes))] == v
+//@   ensures[C01] value-is-patch-value: reached(value#2) ==> v != nil && v.raw != nil && (op["value"] != nil ==> v.raw == op["value"]) && (op["value"] == nil ==> kind(val(*v.raw)) == KNull)
 
 //@ func (Patch).move
 //@   requires args: doc != nil && options != nil && conOK(*doc)
@@ -419,7 +444,17 @@ package jsonpatch
 //@   ensures[C04] container: conOK(*doc) && *doc == old(*doc)
 //@   ensures[C08] attrs: !isTestFailed(err) && !isCopyLimit(err)
 //@   bind con = findObject#1.0
-//@   ensures[C08] missing-parent: reached(findObject#1) && con == nil ==> isMissing(err)
+//@   bind key = findObject#1.1
+//@   bind dst = findObject#2.0
+//@   bind dstKey = findObject#2.1
+//@   let neg = options.SupportNegativeIndices
+//@   ensures[C08] missing-parent: reached(findObject#1) && con != nil || !reached(findObject#1) || isMissing(err)
+//@   ensures[C08] missing-destination: reached(findObject#2) && dst == nil ==> isMissing(err)
+//@   ensures[C01] missing-source: reached(findObject#1) && con != nil && key != "" && (isDoc(con) ==> docOf(con).obj != nil) && (isDoc(con) || isAry(con)) && !at(findObject#1, conHas(con, key, neg)) ==> err != nil
+//@   ensures[C01] removed-before-resolving-object: reached(findObject#2) && isDoc(con) && key != "" ==> pre(findObject#2, !(key in docOf(con).obj))
+//@   ensures[C01] removed-before-resolving-array: reached(findObject#2) && isAry(con) && key != "" ==> pre(findObject#2, len(aryOf(con).nodes)) == at(findObject#1, len(aryOf(con).nodes)) - 1
+//@   ensures[C01] object-destination: reached(findObject#2) && dst != nil && isDoc(dst) && docOf(dst).obj != nil && key != "" ==> err == nil && dstKey in docOf(dst).obj && docOf(dst).obj[dstKey] == at(findObject#1, conAt(con, key))
+//@   ensures[C01] array-destination: reached(findObject#2) && dst != nil && isAry(dst) && err == nil && key != "" ==> aryOf(dst).nodes[idxAddVal(dstKey, at(findObject#2, len(aryOf(dst).nodes)))] == at(findObject#1, conAt(con, key))
 
 //@ func (Patch).test
 //@   requires args: doc != nil && options != nil && conOK(*doc)
@@ -427,7 +462,14 @@ package jsonpatch
 //@   ensures[C04] container: conOK(*doc) && *doc == old(*doc)
 //@   ensures[C08] attrs: !isCopyLimit(err)
 //@   bind con = findObject#1.0
+//@   bind key = findObject#1.1
+//@   let neg = options.SupportNegativeIndices
 //@   ensures[C08] missing-parent: reached(findObject#1) && con == nil ==> isMissing(err) && !isTestFailed(err)
+//@   ensures[C01] absent-member-is-null: reached(findObject#1) && con != nil && isDoc(con) && docOf(con).obj != nil && key != "" && !at(findObject#1, key in docOf(con).obj) ==> ((err == nil) <==> valueIsNull(op))
+//@   ensures[C01] stored-null-is-null: reached(findObject#1) && con != nil && key != "" && at(findObject#1, conHas(con, key, neg) && childIsNull(conAt(con, key))) ==> ((err == nil) <==> valueIsNull(op))
+//@   ensures[C01,C08] mismatch-is-test-failed: reached(findObject#1) && con != nil && key != "" && at(findObject#1, conHas(con, key, neg) && childIsNull(conAt(con, key))) && !valueIsNull(op) ==> isTestFailed(err)
+//@   ensures[C08] null-vs-value: reached(findObject#1) && con != nil && key != "" && at(findObject#1, conHas(con, key, neg) && !childIsNull(conAt(con, key))) && valueIsNull(op) ==> isTestFailed(err)
+//@   ensures[C08] bad-index-is-not-test-failed: reached(findObject#1) && con != nil && isAry(con) && key != "" && !at(findObject#1, conHas(con, key, neg)) ==> err != nil && !isTestFailed(err)
 
 //@ func (Patch).copy
 //@   requires args: doc != nil && options != nil && accumulatedCopySize != nil && conOK(*doc)
@@ -438,7 +480,23 @@ package jsonpatch
 //@   ensures[C08] attrs: !isTestFailed(err)
 //@   ensures[C12] total: *accumulatedCopySize >= old(*accumulatedCopySize)
 //@   bind con = findObject#1.0
+//@   bind dst = findObject#2.0
+//@   bind dstKey = findObject#2.1
+//@   bind cp = deepCopy#1.0
+//@   bind sz = deepCopy#1.1
+//@   bind dcErr = deepCopy#1.2
+//@   let limit = options.AccumulatedCopySizeLimit
+//@   let neg = options.SupportNegativeIndices
 //@   ensures[C08] missing-parent: reached(findObject#1) && con == nil ==> isMissing(err) && !isCopyLimit(err)
+//@   ensures[C08] missing-destination: reached(findObject#2) && dst == nil ==> isMissing(err) && !isCopyLimit(err)
+//@   ensures[C12] accumulated: reached(deepCopy#1) && dcErr == nil ==> *accumulatedCopySize == old(*accumulatedCopySize) + sz
+//@   ensures[C12] not-accumulated: !reached(deepCopy#1) || dcErr != nil ==> *accumulatedCopySize == old(*accumulatedCopySize)
+//@   ensures[C08,C12] limit-iff: isCopyLimit(err) <==> (reached(deepCopy#1) && dcErr == nil && limit > 0 && *accumulatedCopySize > limit)
+//@   ensures[C12] limit-error: isCopyLimit(err) ==> err != nil
+//@   ensures[C12] nothing-inserted-over-limit: isCopyLimit(err) && isAry(dst) ==> aryOf(dst).nodes == at(deepCopy#1, aryOf(dst).nodes)
+//@   ensures[C01] object-member-copied: reached(deepCopy#1) && dcErr == nil && !isCopyLimit(err) && isDoc(dst) && docOf(dst).obj != nil ==> err == nil && dstKey in docOf(dst).obj && docOf(dst).obj[dstKey] == cp
+//@   ensures[C01] array-element-copied: reached(deepCopy#1) && dcErr == nil && !isCopyLimit(err) && isAry(dst) && err == nil ==> aryOf(dst).nodes[idxAddVal(dstKey, at(deepCopy#1, len(aryOf(dst).nodes)))] == cp
+//@   ensures[C01,C09] independent-duplicate: reached(deepCopy#1) && dcErr == nil && cp != nil ==> fresh(cp) && fresh(cp.raw) && cp.which == eRaw
 
 // ---- structural equality of two nodes (C06) ----
 
